@@ -167,9 +167,12 @@ def e2e_one(samp, c):
 
     def spy(*a):
         f = _sys._getframe(1)
-        if len(trace["slopes"]) >= MAX_EVALS:
+        sl = float(f.f_locals["slope"])
+        # the same slope 25 times in a row: the midpoint equals the end point it has just replaced, so the loop state
+        # (slope_min, slope_max) can never change again
+        if len(trace["slopes"]) >= MAX_EVALS or (len(trace["slopes"]) >= 25 and all(v == sl for v in trace["slopes"][-25:])):
             raise SearchRunaway()
-        trace["slopes"].append(float(f.f_locals["slope"]))
+        trace["slopes"].append(sl)
         if trace["ind"] is None:
             trace["ind"] = (np.asarray(f.f_locals["r"]) < 1)
         m = jit(*a)
@@ -202,8 +205,11 @@ def e2e_one(samp, c):
         mask = None
     except SearchRunaway:
         out["status"] = "timeout"
-        out["msg"] = "more than %d _poisson evaluations: last slopes %r" % (MAX_EVALS, trace["slopes"][-3:])
+        out["msg"] = "%d _poisson evaluations and still searching (a terminating bisection makes at most %d; the same slope " \
+                     "25 times in a row means the interval no longer moves): last slopes %r" % (
+                         len(trace["slopes"]), MAX_EVALS, trace["slopes"][-3:])
         trace["slopes"] = trace["slopes"][-5:]
+        trace["actuals"] = trace.get("actuals", [])[-5:]
         mask = None
     except Exception as e:       # noqa
         out["status"] = "exception"
